@@ -78,6 +78,40 @@ CHECKS = {
         note='Trusted: Coq kernel; extraction + OCaml; differential harness. Known finding: the SSH identification string parser answers '
              'InvalidValue for a banner not yet terminated by LF (pinned by an existing test).',
         technique='Coq proof (reader invariant by induction over chunks, generic in the framing unit); extracted reader vs Python reader loop; prefix sweep'),
+    'C01': dict(
+        category='proof',
+        text='Coq theorems: compose-then-parse with an arbitrary suffix returns the value and consumes exactly the composed bytes, for '
+             'the engine primitives (integers, fixed and SSH mpints), every member of every generated enum factory, and the seven LV '
+             'framing units (generic frame lemma instantiated). Tie: constructed objects of all modelled classes composed and re-parsed on '
+             'the extracted model and the implementation, compared with each other and with the value composed. Classes without a model are '
+             'covered by an implementation-only round trip of the objects parsed from the repository tests\' vectors (367 classes; '
+             'exploration supporting the search).',
+        design_ref='DESIGN.md section 6, C01',
+        note='Trusted: Coq kernel; gen_tables.py; extraction + OCaml; differential harness. Theorems exist only for the modelled classes '
+             '(listed in DESIGN.md section 9); known findings listed in known_findings.json.',
+        technique='Coq proof (round-trip lemmas with suffix); extracted-model vs implementation differential run; all-class round-trip sweep'),
+    'C02': dict(
+        category='proof',
+        text='Coq theorems: in the model every partial Python operation carries its failure as Leak <exception>; for every buffer no '
+             'modelled parse function (integers, mpints, timestamps, enum factories, fallback classes, enum vectors, ALPN names, the seven '
+             'framing units) ends in a Leak. Tie: malformed stream through the extracted model and the implementation, outcome kind and '
+             'leaked exception class compared. All other classes: implementation-only mutation sweep over the vectors of the repository '
+             'tests (367 classes), every undocumented exception reported by root cause (innermost cryptoparser frame + calling class code + '
+             'exception class + source line); 14 root causes were repaired by fix: commits, 8 are listed as known findings.',
+        design_ref='DESIGN.md section 6, C02',
+        note='Trusted: Coq kernel; extraction + OCaml; differential harness. No theorem for classes without a model.',
+        technique='Coq proof (no Leak outcome for any buffer) over the modelled classes; differential malformed stream; all-class mutation sweep keyed by root cause'),
+    'C05': dict(
+        category='proof',
+        text='Coq theorems: for every accepted buffer (canonical or not) of the enum factories, the enum vectors (known / unknown / GREASE '
+             'items) and the seven LV framing units, composing the parsed object succeeds and the composed bytes parse back to the same '
+             'object consuming all of them (compose is a function, so the second compose is identical). Tie: accepted non-canonical inputs '
+             'through parse / compose / parse on the extracted model and the implementation. All other classes: implementation-only sweep of '
+             'the same predicate over mutated-but-accepted vectors (367 classes); 29 class/predicate findings of text classes are listed.',
+        design_ref='DESIGN.md section 6, C05',
+        note='Trusted: Coq kernel; extraction + OCaml; differential harness. Known findings are matched per (class family, predicate, '
+             'original | mutated vector).',
+        technique='Coq proof (canonical-form lemmas) over the modelled classes; differential parse/compose/parse run; all-class sweep'),
 }
 
 NOT_YET = {}
